@@ -98,6 +98,9 @@ func ruleR17a(c *Ctx) {
 			}
 			return true
 		})
+		if len(set) == 0 {
+			set = wrapsByPredicate(c, info, fd)
+		}
 		if len(set) > 0 {
 			parenSet[info.Defs[fd.Name].(*types.Func)] = set
 		}
@@ -654,4 +657,103 @@ func ruleR17i(c *Ctx) {
 		return true
 	})
 	c.floor("R17i", "loops over the accesses in DataRefNode.String", 1, n)
+}
+
+// kindPredicates: functions of ast taking one Node and returning bool whose type switch answers true for a set
+// of node kinds (isOperator and the like).
+func kindPredicates(c *Ctx, info *types.Info) map[*types.Func]map[string]bool {
+	out := map[*types.Func]map[string]bool{}
+	for _, fd := range c.allFuncDecls("ast") {
+		if fd.Recv != nil || fd.Body == nil || fd.Type.Params.NumFields() != 1 || fd.Type.Results == nil || fd.Type.Results.NumFields() != 1 {
+			continue
+		}
+		if tv, ok := info.Types[fd.Type.Results.List[0].Type]; !ok || !types.Identical(tv.Type, types.Typ[types.Bool]) {
+			continue
+		}
+		set := map[string]bool{}
+		ast.Inspect(fd.Body, func(x ast.Node) bool {
+			cc, ok := x.(*ast.CaseClause)
+			if !ok {
+				return true
+			}
+			yes := false
+			for _, s := range cc.Body {
+				if r, ok := s.(*ast.ReturnStmt); ok && len(r.Results) == 1 {
+					if tv, ok := info.Types[r.Results[0]]; ok && tv.Value != nil && tv.Value.Kind() == constant.Bool && constant.BoolVal(tv.Value) {
+						yes = true
+					}
+				}
+			}
+			if yes {
+				for _, e := range cc.List {
+					if tv, ok := info.Types[e]; ok && tv.IsType() {
+						if _, tn, ok := relPkgOfType(tv.Type); ok {
+							set[tn] = true
+						}
+					}
+				}
+			}
+			return true
+		})
+		if len(set) > 0 {
+			out[info.Defs[fd.Name].(*types.Func)] = set
+		}
+	}
+	return out
+}
+
+// wrapsByPredicate: the wrapper decides with a kind predicate instead of its own type switch:
+// `if pred(n) { return "(" + .. + ")" }` or `if !pred(n) { return n.String() }; return "(" + .. + ")"`.
+func wrapsByPredicate(c *Ctx, info *types.Info, fd *ast.FuncDecl) map[string]bool {
+	if fd.Body == nil {
+		return nil
+	}
+	preds := kindPredicates(c, info)
+	isWrap := func(s ast.Stmt) bool {
+		r, ok := s.(*ast.ReturnStmt)
+		if !ok || len(r.Results) != 1 {
+			return false
+		}
+		parts := flattenConcat(r.Results[0])
+		return len(parts) >= 3 && litOf(info, parts[0]) == "(" && litOf(info, parts[len(parts)-1]) == ")"
+	}
+	anyWrap := func(list []ast.Stmt) bool {
+		for _, s := range list {
+			if isWrap(s) {
+				return true
+			}
+		}
+		return false
+	}
+	for i, s := range fd.Body.List {
+		is, ok := s.(*ast.IfStmt)
+		if !ok || is.Init != nil {
+			continue
+		}
+		cond, neg := ast.Unparen(is.Cond), false
+		if u, ok := cond.(*ast.UnaryExpr); ok && u.Op == token.NOT {
+			cond, neg = ast.Unparen(u.X), true
+		}
+		call, ok := cond.(*ast.CallExpr)
+		if !ok {
+			continue
+		}
+		fn := calleeFunc(call, info)
+		set := preds[fn]
+		if set == nil {
+			continue
+		}
+		rest := fd.Body.List[i+1:]
+		var els []ast.Stmt
+		if b, ok := is.Else.(*ast.BlockStmt); ok {
+			els = b.List
+		}
+		if !neg && anyWrap(is.Body.List) && !anyWrap(rest) && !anyWrap(els) {
+			return set
+		}
+		if neg && !anyWrap(is.Body.List) && (anyWrap(rest) || anyWrap(els)) {
+			return set
+		}
+	}
+	return nil
 }
